@@ -709,6 +709,12 @@ def _effects(run, P):
     must(fs, emits("goto 999"), "leaves through the exit label",
          "a failed step ends at once")
     rs = P.method(G, "emit_inst_Raise")
+    if any(isinstance(t_, ast.If) and any(isinstance(x, ast.Attribute) and dotted(x.value) == "self"
+                                           for x in ast.walk(t_.test)) for t_ in ast.walk(rs.node)):
+        # what a Raise does depends on an option of the generator (report the error and
+        # return instead of stopping, say): the two ways are not compared here
+        raise AnalysisError("emit_inst_Raise emits differently under an option of the generator; "
+                            "not decided")
     must(rs, emits("stop"), "stops the program",
          "the interpreter raises; continuing after a raise computes on")
     er = P.method(G, "emit_return")
